@@ -57,6 +57,12 @@ var c16Statements = []string{
 	"SELECT id FROM t1 WHERE plain = '%s' ORDER BY id = %d",                               // ORDER BY expression
 	"SELECT id FROM t1 WHERE '%s' IN ('x', 'y') OR id - %d IN (1, 2, 3)",                  // literal on the left of IN
 	"SELECT id FROM t1 WHERE concat(plain, '%s') NOT IN ('a', 'b') AND id = %d",           // literal inside the left operand of NOT IN
+	"SELECT id FROM t1 WHERE plain = '%s' AND id = 09%d",                                  // leading zero, not an octal number
+	"SELECT id FROM t1 WHERE plain = '%s' AND id < %d0000000000",                          // beyond 64 bits
+	"SELECT id FROM t1 WHERE plain = '%s' AND c1 = X'%d'",                                 // hexadecimal string
+	"INSERT INTO t2 (id, note) VALUES (1, 'x') RETURNING '%s', %d",                        // RETURNING list
+	"INSERT INTO t1 (id, plain, c2) VALUES (5, '%s', %d)",                                 // value out of range for a tokenized int32 column
+	"UPDATE t1 SET c2 = '%s' WHERE id = %d",                                               // text for a tokenized int32 column
 }
 
 // statements in the MySQL dialect (MySQL runs)
@@ -91,6 +97,13 @@ var c16MyStatements = []string{
 	"REPLACE INTO t2 (id, note) VALUES (%d, '%s')",
 	"SELECT id FROM t1 WHERE '%s' IN ('x', 'y') OR id - %d IN (1, 2, 3)",
 	"SELECT id FROM t1 WHERE concat(plain, '%s') NOT IN ('a', 'b') AND id = %d",
+	"SELECT id FROM t1 WHERE plain = '%s' AND id = 09%d",
+	"SELECT id FROM t1 WHERE plain = '%s' AND id < %d0000000000",
+	"SELECT id FROM t1 WHERE plain = '%s' AND c1 = X'%d'",
+	"SELECT id FROM t1 WHERE plain = '%s' AND c1 = 0x%d",
+	"SELECT group_concat(plain SEPARATOR '%s') FROM t1 WHERE id = %d",
+	"INSERT INTO t1 (id, plain, c2) VALUES (5, '%s', %d)",
+	"UPDATE t1 SET c2 = '%s' WHERE id = %d",
 }
 
 func (C16) Explore(x *kernel.Explorer, seed uint64) {
@@ -100,7 +113,7 @@ func (C16) Explore(x *kernel.Explorer, seed uint64) {
 			"chunk": int64(r.Intn(4)), "level": int64(r.Intn(3)), "format": int64(r.Intn(3)), "extended": int64(r.Intn(2)), "ignoreparse": int64(r.Intn(2)), "strictparse": int64(r.Intn(3) / 2), "mysql": int64(r.Intn(3) / 2), "depeof": int64(r.Intn(2)), "wyield": int64(r.Intn(2))}}
 		n := 2 + r.Intn(8)
 		for j := 0; j < n; j++ {
-			plan.Ops = append(plan.Ops, kernel.Op{ID: j + 1, Kind: "stmt", A: []int64{int64(r.Intn(29 * 30))}})
+			plan.Ops = append(plan.Ops, kernel.Op{ID: j + 1, Kind: "stmt", A: []int64{int64(r.Intn(35 * 37))}})
 		}
 		x.Exec(plan)
 	}
@@ -145,7 +158,7 @@ func (C16) Run(t *testing.T, plan *kernel.Plan, keepLog bool) *kernel.Result {
 			logging.SetLogLevel(logging.LogDiscard)
 			log.SetLevel(log.WarnLevel)
 		}
-		cols := []colKind{{Name: "c1", Envelope: "acrablock"}}
+		cols := []colKind{{Name: "c1", Envelope: "acrablock"}, {Name: "c2", Token: "int32"}}
 		censorYAML := fmt.Sprintf("version: 0.85.0\nignore_parse_error: %v\nhandlers:\n  - handler: deny\n    tables:\n      - t9\n", plan.Sw("ignoreparse") == 1)
 		mysql := plan.Sw("mysql") == 1
 		statements, dbms := c16Statements, "pg"
@@ -159,7 +172,7 @@ func (C16) Run(t *testing.T, plan *kernel.Plan, keepLog bool) *kernel.Result {
 			return
 		}
 		defer pw.Censor.ReleaseAll()
-		pw.DB.AddTable("t1", Col{"id", TInt8}, Col{"plain", TText}, Col{"c1", TBytea})
+		pw.DB.AddTable("t1", Col{"id", TInt8}, Col{"plain", TText}, Col{"c1", TBytea}, Col{"c2", TInt4})
 		pw.DB.AddTable("t2", Col{"id", TInt8}, Col{"note", TText})
 		pw.DB.AddTable("t9", Col{"id", TInt8}, Col{"note", TText})
 		var script []Stmt
